@@ -104,6 +104,7 @@ def run_property(prop: str, tier: str, seed: int, repo: str) -> dict[str, Any]:
     }
     needs_input: set = set()
     open_contracts: set = set()
+    searched: dict = {}
     replays: dict = {}
     for res in results:
         con = all_contracts[res["contract"]]
@@ -155,7 +156,7 @@ def run_property(prop: str, tier: str, seed: int, repo: str) -> dict[str, Any]:
                 out["undecided"].append({"obligation": ob["name"], "detail": ob["detail"]})
                 open_contracts.add(res["contract"])
             else:
-                viol = {"kind": "deductive", "obligation": ob["name"], "contract": res["contract"],
+                viol = {"kind": "deductive", "ob_kind": ob["kind"], "obligation": ob["name"], "contract": res["contract"],
                         "target": res["target"], "model": ob["model"], "detail": ob["detail"],
                         "solver_output": f"z3 sat; model {json.dumps(ob['model'])}", "has_input": False}
                 replays[res["contract"]] = replays.get(res["contract"], 0) + 1
@@ -202,6 +203,7 @@ def run_property(prop: str, tier: str, seed: int, repo: str) -> dict[str, Any]:
         if res.get("engine_error") or res["out_of_subset"]:
             continue
         tried = 0
+        searched[cname] = not any(ob["kind"] == "unwind" and ob["status"] != "discharged" for ob in res["obligations"])
         for ob in res["obligations"]:
             # (a model that also fixes results of callees under contract is still worth trying: the replay decides)
             if ob["status"] != "failed" or not ob["model"] or ob["kind"] == "unwind" or tried >= 6:
@@ -216,7 +218,7 @@ def run_property(prop: str, tier: str, seed: int, repo: str) -> dict[str, Any]:
                     "model": ob["model"], "has_input": True, "native_replay": rep,
                     "solver_output": f"z3 sat; model {json.dumps(ob['model'])}",
                     "input_found_by": "counterexample search after an obligation was left open by the solvers: the same "
-                                      "contract with its loops run as they are (no invariants) on sequences of <= 2 elements",
+                                      "contract with its loops run as they are (no invariants) on sequences of <= 3 elements",
                     "detail": f"{rep.get('detail', '')} | {ob['detail']}"})
                 break
             for viol in out["violations"]:
@@ -225,9 +227,26 @@ def run_property(prop: str, tier: str, seed: int, repo: str) -> dict[str, Any]:
                     viol["model"] = ob["model"]
                     viol["native_replay"] = rep
                     viol["input_found_by"] = ("counterexample search: the same contract with its loops run as they are "
-                                              f"(no invariants) on sequences of <= 2 elements; obligation {ob['name']}")
+                                              f"(no invariants) on sequences of <= 3 elements; obligation {ob['name']}")
                     viol["detail"] = f"{rep.get('detail', '')} | {viol['detail']}"
             break
+    # a loop invariant (a proof artefact of the sidecar, not a clause of the property) that is no longer inductive on
+    # the current code, while no postcondition fails and the search above ran the whole function on every input with
+    # sequences of <= 3 elements without finding a failing one: the proof is lost, the property is not refuted
+    kept = []
+    for viol in out["violations"]:
+        if viol.get("ob_kind") in ("inv-init", "inv-keep", "decreases") and not viol["has_input"] \
+                and searched.get(viol["contract"]) \
+                and not any(v["contract"] == viol["contract"] and v.get("ob_kind") not in ("inv-init", "inv-keep", "decreases")
+                            for v in out["violations"]):
+            out["undecided"].append({"obligation": viol["obligation"],
+                                     "detail": "invariant of the sidecar not inductive on this code; the counterexample search "
+                                               "(loops run as they are, sequences of <= 3 elements) found no failing input: "
+                                               "proof lost, property not refuted | " + str(viol["detail"])[:300]})
+            out["discharged"] = out["discharged"]  # counts unchanged: the obligation stays undischarged
+            continue
+        kept.append(viol)
+    out["violations"] = kept
     out["inlined"] = sorted(out["inlined"])
     out["assumptions"] = sorted(out["assumptions"])
     out["trusted_base"] = [
